@@ -299,7 +299,7 @@ func mixedNode(b *treeBuilder, rng *rand.Rand, maxDepth int) {
 	case r < 10:
 		b.add(p, "cloneff", TAct{})
 	default:
-		b.add(p, "monitor", TAct{HandlerMs: pickInt(rng, 0, 0, 10), SelfClose: pickInt(rng, 0, 0, 0, 1, 2, 5)})
+		b.add(p, "monitor", TAct{HandlerMs: pickInt(rng, 0, 0, 10), SelfClose: pickInt(rng, 0, 0, 0, 1, 2, 5), CbAct: pick(rng, "", "", "close-self", "close-parent", "close-root", "list", "subscribe")})
 	}
 }
 
@@ -427,7 +427,7 @@ func genC12(g GenCtx) interface{} {
 
 // ---------------------------------------------------------------- C14
 
-var listFailKinds = []string{"error", "error-timeout", "nonlist", "nonobjects", "noitems", "nil"}
+var listFailKinds = []string{"error", "error-timeout", "error-canceled", "error-canceled-bare", "error-deadline-bare", "nonlist", "nonobjects", "noitems", "nil"}
 
 func genC14(g GenCtx) interface{} {
 	sc, rng := baseTree(g)
@@ -490,7 +490,7 @@ func genC16(g GenCtx) interface{} {
 	var mons []int
 	for i := 0; i < nMon; i++ {
 		p := b.randParent(rng, 3)
-		mons = append(mons, b.add(p, "monitor", TAct{HandlerMs: pickInt(rng, 0, 0, 1, 30), SelfClose: pickInt(rng, 0, 0, 0, 0, 1, 3, 8)}))
+		mons = append(mons, b.add(p, "monitor", TAct{HandlerMs: pickInt(rng, 0, 0, 1, 30), SelfClose: pickInt(rng, 0, 0, 0, 0, 1, 3, 8), CbAct: pick(rng, "", "", "close-self", "close-parent", "close-root", "list", "subscribe")}))
 	}
 	released := !sc.HoldFirstList
 	n := rng.Intn(40)
